@@ -188,16 +188,19 @@ mod proofs {
     fn ob_from_str() {
         %(mk)s
         let r = <Ty as FromStr>::from_str(s);
-        kani::cover!(r.is_ok(), "Ok reachable");
-        kani::cover!(r.is_err(), "Err reachable");
-        assert!(post_from_str(s, &r), "post_from_str");
+        // `lane` keeps reachability witnesses (lane) and counterexamples of the obligation (!lane) on different inputs: Kani merges
+        // playback tests with identical inputs and labels the merged test as a cover, which would lose the counterexample.
+        let lane: bool = kani::any();
+        kani::cover!(lane && r.is_ok(), "Ok reachable");
+        kani::cover!(lane && r.is_err(), "Err reachable");
+        assert!(lane || post_from_str(s, &r), "post_from_str");
     }
 %(contract)s%(control)s
     // PLAYBACK-INSERTION-POINT
 }
 ''' % dict(decl=n["decl"], ty=n["ty"], f=n["f"], ferr=n["ferr"], field=n["field"], mk=mk,
            contract=('''    #[kani::proof_for_contract(from_str_contract)]
-    fn ob_contract() { %s let _ = from_str_contract(s); }
+    fn ob_contract() { %s let r = from_str_contract(s); assert!(post_from_str(s, &r), "post_from_str (restated so that a native replay, which does not evaluate `ensures`, can fail)"); }
 ''' % mk if with_contract else ""),
            control=('''    #[kani::proof]
     fn control_false_post() { %s assert!(<Ty as FromStr>::from_str(s).is_ok()); }
@@ -315,7 +318,7 @@ def enum_program(e, with_control):
     decl = "\n".join("    %s," % d for d in e["variants"])
     title = "enum %s { %s }" % (name, ", ".join(e["variants"]))
     buf = "any_ascii_8" if L <= 8 else "any_ascii_16"
-    covers = "\n".join('        kani::cover!(matches!(r, Ok(%s)), "Ok(%s) reachable");' % (pat(i), idents[i]) for i in range(len(vs)))
+    covers = "\n".join('        kani::cover!(lane && matches!(r, Ok(%s)), "Ok(%s) reachable");' % (pat(i), idents[i]) for i in range(len(vs)))
     hs = []
     body = ""
     fn = "<%s as FromStr>::from_str (generated), derive_more::FromStrError::new" % name
@@ -332,9 +335,10 @@ def enum_program(e, with_control):
         let buf = %(buf)s();
         let s = any_prefix(&buf);
         let r = <Ty as FromStr>::from_str(s);
+        let lane: bool = kani::any(); // reachability witnesses on lane, the obligation on !lane (see n_tuple.rs)
 %(covers)s
-        kani::cover!(r.is_err(), "Err reachable");
-        assert!(post_from_str(s, &r), "post_from_str");
+        kani::cover!(lane && r.is_err(), "Err reachable");
+        assert!(lane || post_from_str(s, &r), "post_from_str");
     }
 ''' % dict(L=L, stub=STUB, buf=buf, covers=covers, uw=uw_sym)
         hs.append(Harness("ob_from_str", "forall ASCII s, |s| <= %d: forall V: from_str(s) == Ok(V) <=> rule(V, s); Err => FromStrError naming %s" % (L, name),
